@@ -73,6 +73,28 @@ def obligations(tier, seed):
                       inputs=[(ct, 'a'), (ct, 'b')], body=body,
                       contract='forall a,b:%s with the raw expression defined: += -= *= /= and scalar * / give exactly the raw result' % ct,
                       functions_under_contract=('au::Quantity::operator+=,-=,*=,/=', 'au::operator*(Quantity,T)', 'au::operator*(T,Quantity)', 'au::operator/(Quantity,T)')))
+        # compound assignment and scalar * / with a scalar of a DIFFERENT integral type: the raw operator works in the common type and converts back last
+        for srep in {'i32': ('i64', 'u32', 'i8'), 'i64': ('u64', 'i32'), 'u8': ('i32',), 'u32': ('i32', 'u64'), 'i16': ('u16',)}.get(rep, ()):
+            cs2 = G.ctype(srep)
+            C2 = G.common(rep, srep); cc = G.ctype(C2)
+            wte2 = Wrapper('w_timeseq_%s_%s' % (rep, srep), ct, [(ct, 'a'), (cs2, 's')], 'auto q = %s; q *= s; return q.in(%s{});' % (mk('a'), U))
+            wde2 = Wrapper('w_diveq_%s_%s' % (rep, srep), ct, [(ct, 'a'), (cs2, 's')], 'auto q = %s; q /= s; return q.in(%s{});' % (mk('a'), U))
+            wsm2 = Wrapper('w_scalarmul_%s_%s' % (rep, srep), cc, [(ct, 'a'), (cs2, 's')], 'return (%s * s).in(%s{});' % (mk('a'), U))
+            wsd2 = Wrapper('w_scalardiv_%s_%s' % (rep, srep), cc, [(ct, 'a'), (cs2, 's')], 'return (%s / s).in(%s{});' % (mk('a'), U))
+            csigned = G.REPS[C2]['signed']
+            muldef = '!VF_MUL_OVF(%s, (%s)a, (%s)s)' % (cc, cc, cc) if csigned else '1'
+            divdef2 = '((%s)s != 0 && !((i128)(%s)a == MIN_OF(%s) && (i128)(%s)s == -1))' % (cc, cc, C2, cc) if csigned else '((%s)s != 0)' % cc
+            body = '''
+  if (%s) { CHECK(%s(a, s) == (%s)((%s)a * (%s)s), "times-assign-works-in-the-common-type");
+            CHECK(%s(a, s) == (%s)((%s)a * (%s)s), "quantity-times-scalar-works-in-the-common-type"); }
+  if (%s) { CHECK(%s(a, s) == (%s)((%s)a / (%s)s), "divide-assign-works-in-the-common-type");
+            CHECK(%s(a, s) == (%s)((%s)a / (%s)s), "quantity-over-scalar-works-in-the-common-type"); }
+''' % (muldef, wte2.name, ct, cc, cc, wsm2.name, cc, cc, cc, divdef2, wde2.name, ct, cc, cc, wsd2.name, cc, cc, cc)
+            obs.append(Ob(id='C13.compound-mixed-scalar.%s_%s' % (rep, srep), prop='C13', group=grp, prelude=pre, wrappers=[wte2, wde2, wsm2, wsd2],
+                          inputs=[(ct, 'a'), (cs2, 's')], body=body,
+                          contract='forall a:%s, s:%s with the raw expression defined: q *= s, q /= s, q * s, q / s give exactly what the raw operators give on (a, s): computed in '
+                                   'the common type %s, converted to the result rep last' % (ct, cs2, cc),
+                          functions_under_contract=('au::Quantity::operator*=(T)', 'au::Quantity::operator/=(T)', 'au::operator*(Quantity,T)', 'au::operator/(Quantity,T)')))
         # value access and default construction
         win = Wrapper('w_in_' + rep, ct, [(ct, 'a')], 'return %s.in(%s{});' % (mk('a'), U))
         wdf = Wrapper('w_default_' + rep, ct, [], 'return au::Quantity<%s, %s>{}.in(%s{});' % (U, ct, U))
